@@ -29,9 +29,11 @@ def corpus(rnd):
 
 
 def flips(o, bits):
+    """bit b of the frame in *transmission order*: serial links send the least significant bit of each octet first,
+    which is also the order the reflected CRC-16/ARC is defined over - a burst is contiguous in that order"""
     c = list(o)
     for b in bits:
-        c[b // 8] ^= 0x80 >> (b % 8)
+        c[b // 8] ^= 1 << (b % 8)
     return c
 
 
@@ -51,18 +53,28 @@ def scripts(rnd, quick):
             pairs = rnd.sample(pairs, min(len(pairs), 700 if quick else 6000))
         for a, b in pairs:
             sc.append(rx(0, mem16, cap, wire(0, flips(o, [a, b])), mustfail=1))
-        # bursts of length 2..16 at every bit offset: inverted and random patterns with first/last bit hit
+        # bursts of length 2..16 at every bit offset (transmission order): inverted and random patterns with first/last bit hit.
+        # A burst inside one checksum region (header octets / header checksum / payload checksum / payload) must be caught
+        # (flag 1); one that crosses a checksum-field boundary is claimed by C07 but not guaranteed by the protocol (flag 3)
+        hl = 12 + (2 if o[0] & 2 else 0) + (2 if o[0] & 4 else 0)
+
+        def region(k):
+            return 0 if k < 12 else 1 if k < 14 else 2 if k < hl else 3
         for ln in range(2, 17):
             for start in range(16, nb - ln + 1):
-                sc.append(rx(0, mem16, cap, wire(0, flips(o, list(range(start, start + ln)))), mustfail=1))
-                if not quick or rnd.random() < 0.3:
+                flag = 1 if region(start // 8) == region((start + ln - 1) // 8) else 3
+                sc.append(rx(0, mem16, cap, wire(0, flips(o, list(range(start, start + ln)))), mustfail=flag))
+                if not quick or rnd.random() < 0.3 or flag == 3:
                     inner = [start] + [start + k for k in range(1, ln - 1) if rnd.random() < 0.5] + [start + ln - 1]
-                    sc.append(rx(0, mem16, cap, wire(0, flips(o, inner)), mustfail=1))
+                    sc.append(rx(0, mem16, cap, wire(0, flips(o, inner)), mustfail=flag))
         # truncations and extensions
         for k in range(0, len(o)):
             sc.append(rx(0, mem16, cap, wire(0, o[:k]), mustfail=1))
         for ext in ([0], [0, 0], [1, 2, 3], [255]):
             sc.append(rx(0, mem16, cap, wire(0, o + ext), mustfail=1))
+    # the recorded witness of the open finding (KNOWN_FINDINGS.txt): a 9-bit burst across block size / header checksum
+    wit = request(0, 0, 1, 65535, 0x0100, 3)
+    sc.append(rx(0, 1, cap, wire(0, flips(wit, [90, 91, 96, 98])), mustfail=3))
     # generated frames: every combination of the option bits (incl. the reserved one) on both transports, consistent and inconsistent checksums
     for tr in (0, 1):
         for opts in range(16):
@@ -97,6 +109,22 @@ def run(tier):
     rnd = random.Random(vf.seed())
     ss = list(scripts(rnd, quick))
     vf.trace_flow(v, 'RegpTrace.tla', 'RegpTrace.cfg', 'regp', ss, 'cor')
+    # bursts across a checksum-field boundary that the real code accepted as valid frames: the open finding
+    import json as _json, glob as _glob, os as _os
+    crossing = accepted = 0
+    for f in _glob.glob(_os.path.join(vf.OUT, 'C07', 'cor-rec*.ndjson')):
+        for line in open(f):
+            if '"op":"rx"' not in line:
+                continue
+            e = _json.loads(line)
+            if e['a'][0] == 3:
+                crossing += 1
+                if e['o'][0] == 0 and e['o'][1] == 0:
+                    accepted += 1
+                    v.problem('burst-across-checksum-boundary',
+                              ['#trace RegpTrace.tla RegpTrace.cfg', 'rx ' + ' '.join(map(str, e['a']))],
+                              'corrupted frame accepted as valid: %s' % line[:200], 'regp')
+    v.notes['bursts_across_checksum_boundary'] = dict(tried=crossing, accepted_by_the_real_receiver=accepted)
     v.cov['distinct_nontrivial'] += len(set(l for s in ss for l in s))
     v.notes['corrupted_frames'] = sum(1 for s in ss for l in s if l.startswith('rx 1 '))
     v.cov['rule'] = ('corpus of serial frames of every type x {all 1-bit flips, (sampled) 2-bit flips in protected fields, all inverting bursts 2..16 at every offset + random bursts, '
